@@ -24,8 +24,16 @@ use std::sync::atomic::{AtomicBool, AtomicUsize, Ordering};
 
 pub const ARENA_LEN: usize = 8 << 20;
 pub const RZ: usize = 32; // red zone either side of every block
+// Under Miri SimAlloc is compiled out; the (unused) state is kept tiny because
+// every `&mut` to it is retagged byte by byte by the borrow tracker.
+#[cfg(not(miri))]
 const MAX_BLOCKS: usize = 8192;
+#[cfg(not(miri))]
 const MAX_EVENTS: usize = 32768;
+#[cfg(miri)]
+const MAX_BLOCKS: usize = 4;
+#[cfg(miri)]
+const MAX_EVENTS: usize = 4;
 const MAX_FLAGS: usize = 64;
 const VIRGIN: u8 = 0xCD; // never-allocated arena bytes
 const POISON: u8 = 0xDD; // freed bytes
